@@ -521,9 +521,22 @@ def run(ctx: Ctx):
         missing = [n for n in lsp_fields if n not in kw]
         if missing:
             raise _Raised("TypeError", (f"missing {missing}",))
-        return _Rec("LSPModel", {k: (list(v) if isinstance(v, list) else v) for k, v in kw.items()})
+        # list-valued fields go through the module's own list_converter (folded): whether the model gets a list of
+        # its own or the caller's is the converter's doing
+        return _Rec("LSPModel", {k: (listconv(v) if k in list_fields and isinstance(v, list) else v) for k, v in kw.items()})
     mit = _I2(mod.tree, name=P_MODEL)
     mit.globals["LSPModel"] = _CR("LSPModel", "attrs", call=mk_model)
+    lc = mit.globals.get("list_converter")
+    if lc is None:
+        raise AnalysisError(f"{P_MODEL}: list_converter not found")
+    try:
+        listconv_c = mit.apply(lc, [("host", lambda **kw: kw)], {})
+    except _Raised as e:
+        raise AnalysisError(f"{P_MODEL}: list_converter raises {e.exc_name} when folded")
+
+    def listconv(v):
+        out = mit.apply(listconv_c, [v], {})
+        return out if isinstance(out, list) else list(mit.iterate(out))
     results = []
     for _round in range(2):
         try:
@@ -560,6 +573,23 @@ def run(ctx: Ctx):
     except _Raised as e:
         ctx.fail("merge-extends-all", "create_lsp_model:two-documents", f"create_lsp_model raises {e.exc_name} on two documents",
                  P_MODEL, clm.lineno)
+    # a first document whose lists are empty (an extension-only setup): the later documents fill the model, not the
+    # first document itself
+    e_docs = [{**{n: [] for n in list_fields}, "metaData": {"version": "v0"}}, _copy.deepcopy(pristine[1])]
+    e_pristine = _copy.deepcopy(e_docs)
+    try:
+        e1 = mit.call(clm, [e_docs])
+        e2 = mit.call(clm, [e_docs])
+        ctx.check(e_docs == e_pristine, "merge-leaves-documents-untouched", "create_lsp_model:inputs:empty-first",
+                  "create_lsp_model writes the later documents' declarations into a first document whose lists are empty",
+                  P_MODEL, clm.lineno)
+        ctx.check(isinstance(e1, _Rec) and isinstance(e2, _Rec) and
+                  all(e1.fields.get(n) == e2.fields.get(n) == e_pristine[1][n] for n in list_fields),
+                  "merge-leaves-documents-untouched", "create_lsp_model:second-load:empty-first",
+                  "two loads of the same documents (the first with empty lists) give different models", P_MODEL, clm.lineno)
+    except _Raised as e:
+        ctx.fail("merge-extends-all", "create_lsp_model:empty-first", f"create_lsp_model raises {e.exc_name} when the first "
+                 "document has empty lists", P_MODEL, clm.lineno)
     try:
         single = mit.call(clm, [[_copy.deepcopy(pristine[0])]])
         ok1 = isinstance(single, _Rec) and all(single.fields.get(n) == pristine[0][n] for n in list_fields)
